@@ -382,7 +382,7 @@ func (x *Exec) run(st *State) {
 				x.assume(ck)
 				r := "sat"
 				if !(k == 1 && firstUnsat) {
-					r = x.sess.Check()
+					r = x.sess.Feasible()
 				}
 				if r == "unsat" {
 					if k == 0 {
@@ -691,6 +691,10 @@ func (x *Exec) step(st *State, fr *Frame, instr ssa.Instruction) {
 		x.bind(fr, i, x.binop(st, i.Op, a, b, i.X.Type(), i.Type()))
 	case *ssa.FieldAddr:
 		p := x.val(st, fr, i.X)
+		if p.K == KPtr && isWrapper(deref(i.X.Type())) {
+			x.bind(fr, i, Val{K: KPtr, Typ: i.Type(), P: p.P})
+			return
+		}
 		if p.K != KPtr {
 			x.unsupported("field address of non-pointer")
 			x.bind(fr, i, x.freshVal(st, i.Type(), "fa"))
@@ -699,6 +703,11 @@ func (x *Exec) step(st *State, fr *Frame, instr ssa.Instruction) {
 		x.bind(fr, i, Val{K: KPtr, Typ: i.Type(), P: x.fieldPtr(st, p.P, i.Field)})
 	case *ssa.Field:
 		s := x.val(st, fr, i.X)
+		if isWrapper(i.X.Type()) {
+			s.Typ = i.Type()
+			x.bind(fr, i, s)
+			return
+		}
 		if s.K == KStruct && i.Field < len(s.Fs) {
 			x.bind(fr, i, s.Fs[i.Field])
 		} else {
